@@ -1,16 +1,17 @@
 /* Proof units for C06 (priority queue): contracts + the REAL source/priority_queue.c, source/array_list.c and the
- * inline array-list functions.  Compiled per element size (-DVERIF_ITEM_SIZE=8 | 136) and queue bound (-DVERIF_PQ_N=7 | 15).
+ * inline array-list functions.  Compiled per element size (-DVERIF_ITEM_SIZE=8 | 136) and queue bound (-DVERIF_PQ_N=3 | 7 | 15).
  *
- * Bounded units: the harness builds an arbitrary queue state with concrete objects (storage of nondeterministic
- * capacity and contents, static or dynamic, handle array absent or present with an arbitrary assignment of pool handles
- * to slots); the contract's `requires` cuts the state space down to the representation invariant.  DFCC then checks the
- * real body against ensures + frame.  The sift loops, the clear loop, the 128-byte-slice loop of the element swap and
+ * Bounded units (see the head comment of contracts/priority_queue.h): the harness builds an arbitrary queue state with
+ * concrete objects (storage of nondeterministic capacity and contents, static or dynamic, handle array absent or present
+ * with an arbitrary assignment of pool handles to slots), assumes the contract's requires clauses (which cut the state
+ * space down to the representation invariant and pin the witnesses), calls the REAL function and asserts every ensures
+ * clause under its name.  The sift loops, the clear loop, the 128-byte-slice loop of the element swap and
  * aws_is_mem_zeroed are unwound completely for the bound (unwinding assertions on).
  *
  * Every function has one harness per queue MODE (the state space is the union of the modes):
  *   _live   dynamic queue with a handle array
  *   _plain  static or dynamic queue, storage present, no handle array
- *   _nost   dynamic queue that has no storage yet (capacity 0, empty)   (push, pop, top, clear, clean_up only)
+ *   _nost   dynamic queue that has no storage yet (capacity 0, empty)   (push, pop, top, clear, clean_up, size, capacity)
  * A pointer that may be NULL or an object at a join point (handle array / storage present or not) makes every access
  * through it 20-30 times more expensive in CBMC's encoding, hence one mode per harness. */
 #define VERIF_TRACK_ERRORS
@@ -42,13 +43,44 @@ void abort(void) {
     __CPROVER_assume(0);
 }
 
-#define PQ_GHOSTS() do { AL_GHOST_RESET(); g_on = true; g_pj = nondet_size_t(); \
+/* Executable models of the allocator entry points and of the error slot, equivalent to the contracts in
+ * contracts/allocator.h and contracts/common.h (acquire: size > 0, never fails, fresh block of exactly that size with
+ * arbitrary contents; release: a block that is still allocated, or NULL).  The units of mode "proof" replace the calls
+ * by those contracts instead. */
+void *aws_mem_acquire(struct aws_allocator *allocator, size_t size) {
+    __CPROVER_assert(allocator != NULL && size > 0, "aws_mem_acquire: precondition of the allocator contract");
+    void *p = malloc(size);
+    __CPROVER_assume(p != NULL);
+    return p;
+}
+void aws_mem_release(struct aws_allocator *allocator, void *ptr) {
+    __CPROVER_assert(allocator != NULL, "aws_mem_release: precondition of the allocator contract");
+    free(ptr);
+}
+void aws_raise_error_private(int err) {
+    g_last_error = err;
+    g_raise_count++;
+}
+int aws_last_error(void) {
+    return g_last_error;
+}
+
+/* ghost witnesses: all arbitrary; the pin clauses of the contract tie them to the pre-state.  Without DFCC, objects of
+ * static lifetime start zeroed, so the pool of handles is made arbitrary here. */
+#define PQ_GHOSTS() do { AL_GHOST_RESET(); g_on = true; g_desc = nondet_bool(); g_pj = nondet_size_t(); \
         g_ki = nondet_size_t(); g_pos = nondet_size_t(); g_ki_key = nondet_u8(); g_ki_b = nondet_u8(); g_ki_bp = nondet_ptr(); \
         g_h = nondet_size_t(); g_h_idx = nondet_size_t(); g_h_inq = nondet_bool(); g_h_key = nondet_u8(); g_h_b = nondet_u8(); \
-        g_moved = nondet_bool(); g_last_error = nondet_int(); g_raise_count = nondet_int(); } while (0)
+        g_out = nondet_size_t(); g_out_b = nondet_u8(); g_moved = nondet_bool(); \
+        g0_len = nondet_size_t(); g0_cur = nondet_size_t(); g0_bpcur = nondet_size_t(); g0_idx = nondet_size_t(); \
+        g0_data = nondet_ptr(); g0_bpdata = nondet_ptr(); g0_alloc = nondet_ptr(); \
+        g_last_error = nondet_int(); g_raise_count = nondet_int(); __CPROVER_havoc_object(g_nodes); } while (0)
+#define PQ_ASSUME(name, x) __CPROVER_assume(x);
+#define PQ_ASSERT(name, x) __CPROVER_assert(x, name);
+#define PQ_SKIP(name, x)
 
 /* arbitrary queue state of the given mode (shape only; heap order, handle indices, witnesses come from the requires
- * clauses).  g_rank[], g_nodes[] and the storage contents are nondeterministic. */
+ * clauses).  The storage blocks have the maximal size (N elements / N handle slots, contents arbitrary) and the queue's
+ * current_size says how much of them it owns (cap <= N), so that the blocks are of constant size for CBMC. */
 enum pq_mode { PQ_LIVE, PQ_PLAIN, PQ_NOST };
 static void pq_build(struct aws_priority_queue *q, enum pq_mode mode) {
     size_t len = nondet_size_t(), cap = nondet_size_t(), bpcap = nondet_size_t();
@@ -65,12 +97,12 @@ static void pq_build(struct aws_priority_queue *q, enum pq_mode mode) {
         q->container.alloc = (dyn || mode == PQ_LIVE) ? &g_pq_alloc : NULL;
         q->container.length = len;
         q->container.current_size = cap * ISZ;
-        q->container.data = malloc(cap * ISZ);
+        q->container.data = malloc(PQ_CAPMAX * ISZ);
         __CPROVER_assume(q->container.data != NULL);
     }
     if (mode == PQ_LIVE) {
         __CPROVER_assume(bpcap >= 1 && len <= bpcap && bpcap <= PQ_CAPMAX);
-        struct aws_priority_queue_node **bp = malloc(bpcap * PQ_PSZ);
+        struct aws_priority_queue_node **bp = malloc(PQ_CAPMAX * PQ_PSZ);
         __CPROVER_assume(bp != NULL);
         for (size_t i = 0; i < PQN; i++) {
             if (i < len) {
@@ -99,37 +131,46 @@ static void pq_build(struct aws_priority_queue *q, enum pq_mode mode) {
 static void hb_swap(enum pq_mode m) {
     struct aws_priority_queue q; size_t a = nondet_size_t(), b = nondet_size_t();
     PQ_GHOSTS(); pq_build(&q, m);
-    size_t pos0 = g_pos;
+    PQ_C_swap(PQ_ASSUME, PQ_SKIP, (&q), a, b)
     s_swap(&q, a, b);
-    if (pos0 == a) CANARY("cursor was on a"); else if (pos0 == b) CANARY("cursor was on b"); else CANARY("cursor elsewhere");
+    PQ_C_swap(PQ_SKIP, PQ_ASSERT, (&q), a, b)
+    if (g_ki == a) CANARY("cursor was on a"); else if (g_ki == b) CANARY("cursor was on b"); else CANARY("cursor elsewhere");
 }
 H2(swap)
 static void hb_sift_down(enum pq_mode m) {
-    struct aws_priority_queue q; size_t root = nondet_size_t();
+    struct aws_priority_queue q; size_t root = nondet_size_t(); bool r;
     PQ_GHOSTS(); pq_build(&q, m);
-    bool r = s_sift_down(&q, root);
+    PQ_C_sift_down(PQ_ASSUME, PQ_SKIP, (&q), root, r)
+    r = s_sift_down(&q, root);
+    PQ_C_sift_down(PQ_SKIP, PQ_ASSERT, (&q), root, r)
     if (!r) CANARY("stayed"); else if (root == 0 && g_ki == 0 && g_pos > 2) CANARY("moved from the root to the last level"); else CANARY("moved");
 }
 H2(sift_down)
 static void hb_sift_up(enum pq_mode m) {
-    struct aws_priority_queue q; size_t index = nondet_size_t();
+    struct aws_priority_queue q; size_t index = nondet_size_t(); bool r;
     PQ_GHOSTS(); pq_build(&q, m);
-    bool r = s_sift_up(&q, index);
+    PQ_C_sift_up(PQ_ASSUME, PQ_SKIP, (&q), index, r)
+    r = s_sift_up(&q, index);
+    PQ_C_sift_up(PQ_SKIP, PQ_ASSERT, (&q), index, r)
     if (!r) CANARY("stayed"); else if (index == PQN - 1 && g_ki == index && g_pos == 0) CANARY("moved from the last slot to the root"); else CANARY("moved");
 }
 H2(sift_up)
 static void hb_sift_either(enum pq_mode m) {
     struct aws_priority_queue q; size_t index = nondet_size_t();
     PQ_GHOSTS(); pq_build(&q, m);
+    PQ_C_sift_either(PQ_ASSUME, PQ_SKIP, (&q), index)
     s_sift_either(&q, index);
+    PQ_C_sift_either(PQ_SKIP, PQ_ASSERT, (&q), index)
     if (index == 0) CANARY("root"); else if (g_ki == index && g_pos < index) CANARY("inner, went up");
     else if (g_ki == index && g_pos > index) CANARY("inner, went down"); else CANARY("inner");
 }
 H2(sift_either)
 static void hb_remove_node(enum pq_mode m) {
-    struct aws_priority_queue q; size_t index = nondet_size_t(); uint8_t out[ISZ];
+    struct aws_priority_queue q; size_t index = nondet_size_t(); uint8_t out[ISZ]; int r;
     PQ_GHOSTS(); pq_build(&q, m);
-    int r = s_remove_node(&q, out, index);
+    PQ_C_remove_node(PQ_ASSUME, PQ_SKIP, (&q), out, index, r)
+    r = s_remove_node(&q, out, index);
+    PQ_C_remove_node(PQ_SKIP, PQ_ASSERT, (&q), out, index, r)
     if (q.container.length == 0) CANARY("removed the only element"); else if (index == q.container.length) CANARY("removed the last slot");
     else CANARY("removed an inner slot");
 }
@@ -137,102 +178,123 @@ H2(remove_node)
 
 /* ---------------------------------------------------------------- public operations */
 static void hb_pop(enum pq_mode m) {
-    struct aws_priority_queue q; uint8_t out[ISZ];
+    struct aws_priority_queue q; uint8_t out[ISZ]; int r;
     PQ_GHOSTS(); pq_build(&q, m);
-    int r = aws_priority_queue_pop(&q, out);
-    if (r != 0) CANARY("empty queue refused"); else if (q.container.length == PQN - 1) CANARY("popped from a full tree");
+    PQ_C_pop(PQ_ASSUME, PQ_SKIP, (&q), out, r)
+    r = aws_priority_queue_pop(&q, out);
+    PQ_C_pop(PQ_SKIP, PQ_ASSERT, (&q), out, r)
+    if (r != 0) CANARY("empty queue refused"); else if (m == PQ_NOST) CANARY("unreachable: a queue without storage is empty");
+    else if (q.container.length == PQN - 1) CANARY("popped from a full tree");
     else if (g_h_inq && g_h_idx == 0) CANARY("popped the ghost handle's element"); else CANARY("popped");
 }
 H3(pop)
 static void hb_remove(enum pq_mode m) {
-    struct aws_priority_queue q; uint8_t out[ISZ]; size_t h = nondet_size_t();
+    struct aws_priority_queue q; uint8_t out[ISZ]; size_t h = nondet_size_t(); int r;
     PQ_GHOSTS(); pq_build(&q, m);
     __CPROVER_assume(h < PQK);
-    int r = aws_priority_queue_remove(&q, out, &g_nodes[h]);
+    PQ_C_remove(PQ_ASSUME, PQ_SKIP, (&q), out, (&g_nodes[h]), r)
+    r = aws_priority_queue_remove(&q, out, &g_nodes[h]);
+    PQ_C_remove(PQ_SKIP, PQ_ASSERT, (&q), out, (&g_nodes[h]), r)
     if (r == 0) { if (h == g_h) CANARY("removed the ghost handle's element"); else CANARY("removed another element"); }
     else if (q.backpointers.data == NULL) CANARY("refused: queue never had handles");
-    else if (g_nodes[h].current_index == SIZE_MAX) CANARY("refused: stale handle"); else CANARY("refused: index out of range");
+    else if (g0_idx == SIZE_MAX) CANARY("refused: stale handle"); else CANARY("refused: index out of range");
 }
 H2(remove)
 static void hb_top(enum pq_mode m) {
-    struct aws_priority_queue q; void *p;
+    struct aws_priority_queue q; void *p; int r;
     PQ_GHOSTS(); pq_build(&q, m);
-    int r = aws_priority_queue_top(&q, &p);
+    PQ_C_top(PQ_ASSUME, PQ_SKIP, (&q), (&p), r)
+    r = aws_priority_queue_top(&q, &p);
+    PQ_C_top(PQ_SKIP, PQ_ASSERT, (&q), (&p), r)
     if (r == 0) CANARY("top"); else CANARY("empty queue refused");
 }
 H3(top)
 static void hb_push_ref(enum pq_mode m) {
-    struct aws_priority_queue q; uint8_t in[ISZ]; size_t h = nondet_size_t();
+    struct aws_priority_queue q; uint8_t in[ISZ]; size_t h = nondet_size_t(); int r;
     PQ_GHOSTS(); pq_build(&q, m);
     struct aws_priority_queue_node *bp = h < PQK ? &g_nodes[h] : NULL;
-    bool was_full = q.container.length * ISZ == q.container.current_size;
-    size_t len0 = q.container.length;
-    int r = aws_priority_queue_push_ref(&q, in, bp);
+    PQ_C_push(PQ_ASSUME, PQ_SKIP, (&q), in, bp, r)
+    r = aws_priority_queue_push_ref(&q, in, bp);
+    PQ_C_push(PQ_SKIP, PQ_ASSERT, (&q), in, bp, r)
     if (r == 0) {
-        if (bp && len0 > 0) CANARY("handle, non-empty queue"); else if (bp) CANARY("handle, empty queue");
-        else if (was_full) CANARY("no handle, storage grew"); else CANARY("no handle");
-    } else if (was_full) CANARY("full static queue refused"); else CANARY("static queue refused a handle");
+        if (bp && g0_len > 0) CANARY("handle, non-empty queue"); else if (bp) CANARY("handle, empty queue");
+        else if (PQ_FULL0) CANARY("no handle, storage grew"); else CANARY("no handle");
+    } else if (PQ_FULL0) CANARY("full static queue refused"); else CANARY("static queue refused a handle");
 }
 H3(push_ref)
 static void hb_push(enum pq_mode m) {
-    struct aws_priority_queue q; uint8_t in[ISZ];
+    struct aws_priority_queue q; uint8_t in[ISZ]; int r;
     PQ_GHOSTS(); pq_build(&q, m);
-    bool was_full = q.container.length * ISZ == q.container.current_size;
-    int r = aws_priority_queue_push(&q, in);
-    if (r != 0) CANARY("full static queue refused"); else if (was_full) CANARY("pushed, storage grew"); else CANARY("pushed");
+    PQ_C_push(PQ_ASSUME, PQ_SKIP, (&q), in, PQ_NO_HANDLE, r)
+    r = aws_priority_queue_push(&q, in);
+    PQ_C_push(PQ_SKIP, PQ_ASSERT, (&q), in, PQ_NO_HANDLE, r)
+    if (r != 0) CANARY("full static queue refused"); else if (PQ_FULL0) CANARY("pushed, storage grew"); else CANARY("pushed");
 }
 H3(push)
 static void hb_clear(enum pq_mode m) {
     struct aws_priority_queue q;
     PQ_GHOSTS(); pq_build(&q, m);
+    PQ_C_clear(PQ_ASSUME, PQ_SKIP, (&q))
     aws_priority_queue_clear(&q);
+    PQ_C_clear(PQ_SKIP, PQ_ASSERT, (&q))
     if (g_h_inq) CANARY("ghost handle invalidated"); else CANARY("ghost handle outside");
 }
 H3(clear)
 static void hb_size(enum pq_mode m) {
-    struct aws_priority_queue q;
+    struct aws_priority_queue q; size_t n;
     PQ_GHOSTS(); pq_build(&q, m);
-    size_t n = aws_priority_queue_size(&q);
+    PQ_C_size(PQ_ASSUME, PQ_SKIP, (&q), n)
+    n = aws_priority_queue_size(&q);
+    PQ_C_size(PQ_SKIP, PQ_ASSERT, (&q), n)
     if (n == 0) CANARY("empty"); else CANARY("non-empty");
 }
-H3(size)
 static void hb_capacity(enum pq_mode m) {
-    struct aws_priority_queue q;
+    struct aws_priority_queue q; size_t n;
     PQ_GHOSTS(); pq_build(&q, m);
-    size_t n = aws_priority_queue_capacity(&q);
+    PQ_C_capacity(PQ_ASSUME, PQ_SKIP, (&q), n)
+    n = aws_priority_queue_capacity(&q);
+    PQ_C_capacity(PQ_SKIP, PQ_ASSERT, (&q), n)
     if (n == 0) CANARY("no storage"); else CANARY("storage");
 }
-H3(capacity)
+/* the observers are cheap: all three modes in one harness (three calls) */
+void h_observers(void) {
+    enum pq_mode m = nondet_bool() ? PQ_LIVE : (nondet_bool() ? PQ_PLAIN : PQ_NOST);
+    if (m == PQ_LIVE) { hb_size(PQ_LIVE); hb_capacity(PQ_LIVE); }
+    else if (m == PQ_PLAIN) { hb_size(PQ_PLAIN); hb_capacity(PQ_PLAIN); }
+    else { hb_size(PQ_NOST); hb_capacity(PQ_NOST); }
+}
 static void hb_clean_up(enum pq_mode m) {
     struct aws_priority_queue q;
     PQ_GHOSTS(); pq_build(&q, m);
+    PQ_C_clean_up(PQ_ASSUME, PQ_SKIP, (&q))
     aws_priority_queue_clean_up(&q);
+    PQ_C_clean_up(PQ_SKIP, PQ_ASSERT, (&q))
     CANARY("returned");
 }
 H3(clean_up)
 
-/* ---------------------------------------------------------------- loop-free, any size (DFCC allocates the parameters) */
+/* ---------------------------------------------------------------- loop-free, any size (mode proof: DFCC allocates the parameters) */
 void h_node_init(void) {
     struct aws_priority_queue_node *n;
-    PQ_GHOSTS();
+    AL_GHOST_RESET();
     aws_priority_queue_node_init(n);
     CANARY("returned");
 }
 void h_node_is_in_queue(void) {
     const struct aws_priority_queue_node *n;
-    PQ_GHOSTS();
+    AL_GHOST_RESET();
     bool r = aws_priority_queue_node_is_in_queue(n);
     if (r) CANARY("in queue"); else CANARY("not in queue");
 }
 void h_init_static(void) {
     struct aws_priority_queue *q; void *heap; size_t n, sz; aws_priority_queue_compare_fn *pred;
-    PQ_GHOSTS();
+    AL_GHOST_RESET();
     aws_priority_queue_init_static(q, heap, n, sz, pred);
     CANARY("returned");
 }
 void h_init_dynamic(void) {
     struct aws_priority_queue *q; struct aws_allocator *al; size_t n, sz; aws_priority_queue_compare_fn *pred;
-    PQ_GHOSTS();
+    AL_GHOST_RESET(); g_last_error = nondet_int(); g_raise_count = nondet_int();
     int r = aws_priority_queue_init_dynamic(q, al, n, sz, pred);
     if (r == 0) { if (n == 0) CANARY("no initial allocation"); else CANARY("allocated"); } else CANARY("size overflow");
 }
